@@ -71,7 +71,7 @@ func (w *World) doOp() {
 			}
 			p := g.newPod(w.cl)
 			w.cl.Pods[p.key()] = p
-			w.mustCreate("pods", p.api())
+			w.createPod(p)
 			w.note(kind)
 			return
 		case "pod-del":
@@ -104,7 +104,7 @@ func (w *World) doOp() {
 			}
 			n.IP = g.freshIP(n.Node, w.cl)
 			w.cl.Pods[n.key()] = n
-			w.mustCreate("pods", n.api())
+			w.createPod(n)
 			w.note(kind)
 			return
 		case "pod-ip":
@@ -152,6 +152,11 @@ func (w *World) doOp() {
 			inst := w.inst
 			t := w.S.Spawn("cni:"+p.key(), w.proc, func() { cniTask(inst, b) })
 			t.Tag = "cni"
+			if w.armed("C16") {
+				// the CNI path evaluates the pod with its new address
+				w.sh.podPoint(w.view, &withIP, true)
+				w.sinceJudge = append(w.sinceJudge, "cni-add:"+p.key())
+			}
 			if w.conc {
 				w.cniTasks = append(w.cniTasks, &cniInFlight{task: t, pod: &withIP})
 			} else {
@@ -212,6 +217,21 @@ func (w *World) doOp() {
 		}
 	}
 	w.note("noop")
+}
+
+// createPod stores a new pod the way a living cluster does: the object appears without an address and the kubelet
+// reports the address in a status update (two events), unless the run has pods reach the informer with their
+// address already set (one ADDED event, as after a relist).
+func (w *World) createPod(p *Pod) {
+	if p.IP == "" || w.F.AddWithIP {
+		w.mustCreate("pods", p.api())
+		return
+	}
+	ip := p.IP
+	p.IP = ""
+	w.mustCreate("pods", p.api())
+	p.IP = ip
+	w.mustUpdate("pods", p.api())
 }
 
 // finishCNI is the kubelet's status update after a CNI ADD.
